@@ -400,12 +400,33 @@ func runC12(c *an.Ctx) {
 		if okO {
 			fl := an.Flow{Fn: flush}
 			is := func(x *ssa.Call) an.InstrPred { return func(in ssa.Instruction) bool { return in == ssa.Instruction(x) } }
-			okO = fl.MustPrecede(is(app), ntf) && fl.MustPrecede(is(ntf), adv) && app.Block().Index == 0 && ntf.Block().Index == 0
-			// same headers: Append(p0...) and Notify(getHeights(p0...)...)
+			// order, and nothing between them can skip the next step (each one follows the previous on every path)
+			f1, _ := fl.MustFollow(app, is(ntf), nil)
+			f2, _ := fl.MustFollow(ntf, is(adv), nil)
+			okO = fl.MustPrecede(is(app), ntf) && fl.MustPrecede(is(ntf), adv) && f1 && f2 && app.Block().Index == 0
+			// same headers: Append(p0...) and Notify(heights of p0...): through getHeights, or through a
+			// slice of len(p0) filled by an index walk with p0[i].Height()
 			okArgs := ft.Of(app.Call.Args[1]) == "p0"
-			if gh, isCall := ntf.Call.Args[1].(*ssa.Call); isCall {
+			switch gh := ntf.Call.Args[1].(type) {
+			case *ssa.Call:
 				okArgs = okArgs && an.StaticCallee(&gh.Call) != nil && an.FuncName(an.StaticCallee(&gh.Call)) == "store.getHeights" && ft.Of(gh.Call.Args[0]) == "p0"
-			} else {
+			case *ssa.MakeSlice:
+				filled := false
+				if ft.Of(gh.Len) == "len(p0)" {
+					if l := loopOver(ft, "p0"); l != nil {
+						an.Instrs(flush, func(in ssa.Instruction) {
+							st, isSt := in.(*ssa.Store)
+							if !isSt {
+								return
+							}
+							if ia, isIA := st.Addr.(*ssa.IndexAddr); isIA && ia.X == ssa.Value(gh) && ft.Of(ia.Index) == ft.Of(l.K) && ft.Of(st.Val) == "Height(p0["+ft.Of(ia.Index)+"])" {
+								filled = true
+							}
+						})
+					}
+				}
+				okArgs = okArgs && filled
+			default:
 				okArgs = false
 			}
 			okO = okO && okArgs
